@@ -1413,8 +1413,15 @@ func (r *runner) deadBranchKind(st table.VerifPitCsStats) string {
 func (r *runner) stateDigest() uint64 {
 	d := kit.NewDigest()
 	es := make([]string, 0, len(r.sink))
+	cur := r.sc.Ops[r.step]
 	for _, e := range r.sink {
-		es = append(es, fmt.Sprintf("%d|%v|%s|%d|%d", e.face, e.isData, e.name, r.tokCanonStable(e.token), e.hop))
+		name := e.name
+		if cur.Op == "interest" && cur.CBP && e.isData {
+			// which of several acceptable cached packets answers a prefix
+			// lookup is left open (map iteration order inside the CS)
+			name = cur.Name + "/*"
+		}
+		es = append(es, fmt.Sprintf("%d|%v|%s|%d|%d", e.face, e.isData, name, r.tokCanonStable(e.token), e.hop))
 	}
 	d.SortedStrings(es)
 	st := r.pitcs.VerifStats()
